@@ -1,18 +1,24 @@
 -- REGENERATED from /repo by tools/extract on every run. Do not edit.
 namespace CaddyModel.Gen
 
-/-- modules/caddyhttp/server.go (*Server).enforcementHandler: every selector expression of its body rooted at the
-    receiver or a parameter (a method call `r.Context()` would appear as `r.Context`), sorted -/
-def enforcementSelectors : List String := ["next.ServeHTTP", "r.Close", "r.Host", "r.TLS", "r.TLS.ServerName", "s.StrictSNIHost"]
+/-- modules/caddyhttp: (*Server).enforcementHandler and every same-package function it statically calls (transitively):
+    selector chains READ on a `*http.Request` (a call `r.Context()` would appear as `Request.Context`), sorted -/
+def enforcementRequestReads : List String := ["Request.Host", "Request.TLS", "Request.TLS.ServerName"]
 
-/-- … the ones it assigns to -/
-def enforcementWrites : List String := ["r.Close"]
+/-- … fields read on the `*Server` -/
+def enforcementServerReads : List String := ["Server.StrictSNIHost"]
 
-/-- … every free identifier of its body (packages, package-level functions / variables / types, predeclared names) -/
-def enforcementFreeIdents : List String := ["Error", "fmt", "http", "isASCII", "net", "nil", "strings", "true"]
+/-- … keys of context reads (`.Value(k)` calls) -/
+def enforcementContextReads : List String := []
 
-/-- … and the number of top-level statements of its body -/
-def enforcementTopStmts : Nat := 2
+/-- … package-level variables of package caddyhttp mentioned -/
+def enforcementPackageVars : List String := []
+
+/-- … assignment targets that are fields of a request / server or package-level variables -/
+def enforcementWrites : List String := ["Request.Close"]
+
+/-- … and the functions visited -/
+def enforcementFunctions : List String := [".Error", ".hostWithoutPort", ".isASCII", ".randString", ".trace", "Server.enforcementHandler", "Server.strictSNIHostEnabled"]
 
 /-- modules/caddyhttp/app.go: the keys of the context.WithValue calls inside the `ConnContext:` function literals
     (the per-connection values every request's context carries), how many such literals there are, and whether
